@@ -282,8 +282,10 @@ def diff_summaries(a, b, path=""):
     return out[:6]
 
 
-def read_summary(text, width, name="lay.i"):
-    """-> ('ok', summary) | ('err', exception class name)"""
+def read_summary(text, width, name="lay.i", files=None):
+    """-> ('ok', summary) | ('err', exception class name); `files`: {name: text} written next to the main file"""
+    for fn, ft in (files or {}).items():
+        mp.write_text(fn, ft)
     try:
         pr = mp.read_problem(text, name=name, version=VERS[width])
     except Exception as e:
@@ -443,6 +445,74 @@ def relayout(rng, text, allow=FEATURES, width=128):
         eol = "\r\n"
         feats.add("crlf")
     return eol.join(front + out) + eol, sorted(feats)
+
+
+# ------------------------------------------------------------------------------ READ inputs
+READ_FEATURES = ("read_alone_indent", "read_alone_amp", "read_case", "read_eq_blank", "read_eq_spaced", "read_tab",
+                 "read_comment_between", "read_comment_before", "read_dollar", "read_indent", "read_trailing_blanks",
+                 "read_break_after_eq")
+
+
+def render_read(rng, fname, allow=READ_FEATURES):
+    """-> (physical lines of `read file=<fname>`, features used).  The file name is content (never re-cased); the key
+    words, the separator, the way the input is spread over lines and the comments around it are layout.  The random
+    draws do not depend on `allow`."""
+    r = [rng.random() for _ in range(16)]
+    feats = set()
+    kw_read, kw_file = "read", "file"
+    if "read_case" in allow and r[0] < 0.5:
+        kw_read = ["READ", "Read", "rEAd", "reaD"][int(r[1] * 4)]
+        kw_file = ["FILE", "File", "fIle", "file"][int(r[2] * 4)]
+        feats.add("read_case")
+    eq = "="
+    if "read_eq_blank" in allow and r[3] < 0.3:
+        eq = [" ", "  "][int(r[4] * 2)]
+        feats.add("read_eq_blank")
+    elif "read_eq_spaced" in allow and r[3] < 0.6:
+        eq = [" = ", "= ", " =", "  =  "][int(r[4] * 4)]
+        feats.add("read_eq_spaced")
+    sep = " "
+    if "read_tab" in allow and r[5] < 0.2:
+        sep = "\t"
+        feats.add("read_tab")
+    indent = ""
+    if "read_indent" in allow and r[6] < 0.2:
+        indent = " " * (1 + int(r[7] * 4))
+        feats.add("read_indent")
+    first = indent + kw_read
+    lines = []
+    if "read_comment_before" in allow and r[8] < 0.2:
+        lines.append(["c the next input reads a file", "C", "  c read card"][int(r[9] * 3)])
+        feats.add("read_comment_before")
+    style = None
+    if "read_alone_indent" in allow and r[10] < 0.3:
+        style = "indent"
+    elif "read_alone_amp" in allow and r[10] < 0.6:
+        style = "amp"
+    rest = kw_file + eq + fname
+    if "read_break_after_eq" in allow and r[11] < 0.15 and eq.strip() == "=":
+        rest = kw_file + eq.rstrip(" ") + "\n" + " " * (5 + int(r[12] * 4)) + fname
+        feats.add("read_break_after_eq")
+    if style is None:
+        body = [first + sep + rest.split("\n")[0]] + rest.split("\n")[1:]
+    elif style == "indent":
+        body = [first, " " * (5 + int(r[12] * 6)) + rest.split("\n")[0]] + rest.split("\n")[1:]
+        feats.add("read_alone_indent")
+    else:
+        body = [first + " &", " " * int(r[12] * 9) + rest.split("\n")[0]] + rest.split("\n")[1:]
+        feats.add("read_alone_amp")
+    if len(body) > 1 and "read_comment_between" in allow and r[13] < 0.3:
+        body.insert(1, ["c between the key word and the file", "C", "   c"][int(r[9] * 3)])
+        feats.add("read_comment_between")
+    if "read_dollar" in allow and r[14] < 0.25:
+        k = len(body) - 1 if (style == "amp" or r[15] < 0.5) else 0
+        if not C_LINE.match(body[k]) and not body[k].rstrip().endswith("&"):
+            body[k] = body[k] + " $ " + ["more data", "see the other file", "x=1"][int(r[9] * 3)]
+            feats.add("read_dollar")
+    if "read_trailing_blanks" in allow and r[15] < 0.2:
+        body[-1] = body[-1] + "   "
+        feats.add("read_trailing_blanks")
+    return lines + body, sorted(feats)
 
 
 # ------------------------------------------------------------------------------ real line reader
